@@ -170,7 +170,7 @@ class verneed_iter_versions:
     params = dict(self=VerSecT('vn'))
     requires = ["self.structs.elfclass == self.elffile.elfclass"]
     ghost = {"$B": "self.stream.B", "$o0": "self.header.sh_offset"}
-    yield_shape = TupleT(VerNeed, GenOf(AuxNeed))
+    yield_shape = TupleT(Obj('Version', entry=VerneedT, name=Str), GenOf(AuxNeed))
     loops = {0: dict(invariant=["$k == $n"])}
     each_yield = ["value[0].entry == P('Elf_Verneed', $B, chain_off($B, $o0, $n, 'Elf_Verneed', 'vn_next'))",
                   "value[0].name == secname(self.stringtable, value[0].entry.vn_file)",
@@ -196,3 +196,19 @@ def _linked(name, want):
 
 _linked("_get_linked_symtab_section", ('SHT_SYMTAB', 'SHT_DYNSYM'))
 _linked("_get_linked_strtab_section", ('SHT_STRTAB',))
+
+
+@contract("elftools/elf/gnuversions.py", "GNUVerNeedSection.get_version", props=["C15"])
+class verneed_get_version:
+    """the requirement and auxiliary entry whose vna_other equals the index, searched over EVERY requirement
+    entry and every auxiliary of each; nothing only when no auxiliary of any entry carries the index"""
+    params = dict(self=VerSecT('vn'), index=Nat)
+    requires = ["self.structs.elfclass == self.elffile.elfclass"]
+    returns = Opt(TupleT(VerNeed, AuxNeed))
+    loops = {0: dict(invariant=["forall(lambda i, j: j >= gen_len($seq0[i][1]) or gen_elem($seq0[i][1], j).entry.vna_other != index,"
+                                " 0, $k, 0, 65536)"]),
+             1: dict(invariant=["forall(lambda j: gen_elem(vernaux_iter, j).entry.vna_other != index, 0, $k)"])}
+    ensures = ["result is None or result[1].entry.vna_other == index",
+               "result is not None or forall(lambda i, j: j >= gen_len($seq0[i][1]) or gen_elem($seq0[i][1], j).entry.vna_other != index,"
+               " 0, len($seq0), 0, 65536)"]
+    may_raise = ["ELFError", "OverflowError"]
